@@ -85,9 +85,12 @@ def parseSortOpts (s : String) : Option (Bool × Option Fn) :=
       | _ => none
   | _ => none
 
-def parseFn1 : String → Option Fn1
-  | "copy" => some .copy
-  | "dedup" => some .dedup
+def parseFn1 (s : String) : Option Fn1 :=
+  match s.splitOn ":" with
+  | ["copy"] => some .copy
+  | ["dedup"] => some .dedup
+  | ["subst", nw, old] => do some (.subst (← nw.toInt?) (← old.toInt?))
+  | ["substif", nw, p] => do some (.substIf (← nw.toInt?) (← parsePred p))
   | _ => none
 
 def parseFn2 : String → Option Fn2
